@@ -77,6 +77,10 @@ class Prop:
         out = []
         for c in cases:
             w = c.split(" ")
+            if w[0] == "A" and len(w) == 4:
+                # expand a disagreeing enumeration case into its 65,536 individual D cases
+                pre = "" if w[2] == "-" else w[2]
+                out += ["D %s %s%04x" % (w[1], pre, v) for v in range(65536)]
             if w[0] == "D" and len(w) == 3 and w[2] != "-":
                 b = bytes.fromhex(w[2])
                 for m in G.byte_level(rng, b, 40):
